@@ -32,7 +32,7 @@ def cfg_for(out):
     return '[snoopy]\nmessage_format = ' + FMT + '\nfilter_chain = ' + CHAIN + '\noutput = ' + o + '\n'
 
 
-def judge(x, k, out, nthr=2):
+def judge(x, k, out, nthr=2, depth=1):
     bad = []
     if x.timed_out:
         return ['hang_nothing_runnable_in_the_process_tree' if getattr(x, 'hang', '') == 'hang' else 'timeout']
@@ -69,10 +69,11 @@ def judge(x, k, out, nthr=2):
     if out == 'file':
         lines = [l for l in (x.log or b'').decode('latin-1').split('\n') if l]
         want = ['/t%d/prog%d|cmd arg-t%d-j%d T%dT%dT%d|' % (t, j, t, j, t, t, t) for t in range(1, nthr) for j in range(k)] + ['/child/prog|childcmd childarg|', '/lone|LONE|']
+        nchild = 2 if depth == 11 else 1
         for w in want:
-            if len([l for l in lines if l.startswith(w)]) != 1:
+            if len([l for l in lines if l.startswith(w)]) != (nchild if w.startswith('/child/') else 1):
                 bad.append('record_missing_or_duplicated(%s)' % w.split('|')[0])
-        if len(lines) != len(want):
+        if len(lines) != len(want) + nchild - 1:
             bad.append('record_count_%d_expected_%d' % (len(lines), len(want)))
         for l in lines:
             if not re.match(r'^[^|]+\|[^|]+\|[12]\|root\|Q[^|]*Q$', l):
@@ -97,6 +98,10 @@ def run(ck):
     # two other threads inside the library at the moment of the fork (the child's copy of the registry holds two foreign entries)
     plan.append(('file-n3-d1-k1', va, False, 'file', 1, 1, 1, 3))
     plan.append(('devlog-n3-d1-k1', va, False, 'devlog', 1, 1, 1, 3))
+    # the child becomes multithreaded itself and its NEW threads make the calls (depth code 11); also with the parent's other thread already
+    # finished when the fork is taken (schedules in which thread 1 runs to completion first are part of every campaign)
+    plan.append(('file-childthreads-k1', va, False, 'file', 11, 1, 1))
+    plan.append(('devlog-childthreads-k1', va, False, 'devlog', 11, 1, 1))
     plan.append(('hashed-file-n3-d1-k1', va, False, 'file', 1, 1, 'hashed', 3))
     # snoopy's open/write/writev/close are scheduling points too: the fork is also taken while the other thread is between the
     # system calls of its output (whatever it holds there - a descriptor, a lock on it - is inherited by the child)
@@ -133,7 +138,7 @@ def run(ck):
             return S.run_one(v['h_thr'], tl.w, cfg_for(out), nthr, k, 'fork', prefix, san='asan', fn=fn, extra_args=[str(depth)], timeout=60, env_extra={'VS_STDIN_PTY': '1', 'A': 'a'})
 
         def check(x, k=k, out=out, name=name, bound=bound, depth=depth, nthr=nthr):
-            bad = judge(x, k, out, nthr)
+            bad = judge(x, k, out, nthr, depth)
             # where was the fork taken relative to thread 1's progress?
             t1 = 0
             for p in x.points:
